@@ -296,10 +296,21 @@ bool do_read(World& w, int reader, uint32_t word, uint16_t& got) {
     }
     if (reader == RGuestMovp) {
         // r1 := program[(pcmhi:a0l)]
-        st[flat::F_a + 0] = word & 0xFFFF;
-        st[flat::F_pcmhi] = word >> 16;
-        if (!w.guest({W("movp(Axl,Register)", {0, 1})}, st, &after))
-            return false;
+        if (((word * 7) ^ (word >> 5)) & 1) {
+            // r1 := program[a0 & 0x3FFFF]: the whole accumulator is the address, whatever lies above bit 17 (not a sign extension,
+            // saturation mode on) is ignored
+            uint64_t junk = vf::mix64(word * 0x9E37ull + 5) & 0x3FFFFF; // bits 18..39
+            st[flat::F_a + 0] = flat::sext40((junk << 18) | word);
+            st[flat::F_sat] = 0;
+            if (!w.guest({W("movp(Ax,Register)", {0, 1})}, st, &after))
+                return false;
+            vf::klass("movp through the full accumulator");
+        } else {
+            st[flat::F_a + 0] = word & 0xFFFF;
+            st[flat::F_pcmhi] = word >> 16;
+            if (!w.guest({W("movp(Axl,Register)", {0, 1})}, st, &after))
+                return false;
+        }
         got = (uint16_t)after[flat::F_r + 1];
         return true;
     }
